@@ -6,13 +6,14 @@ use meshless_voronoi::geometry::Sphere;
 use meshless_voronoi::verif_hooks as vh;
 
 fn box_shape(rng: &mut Rng) -> (DVec3, DVec3, &'static str) {
-    match rng.below(7) {
+    match rng.below(8) {
         0 => (DVec3::ZERO, DVec3::ONE, "cube"),
         1 => (DVec3::splat(1.), DVec3::splat(2.), "cube12"),
         2 => (DVec3::new(-0.5, 2., 0.25), DVec3::new(1., 6., 1.), "slab"),
         3 => (DVec3::new(0., 0., 0.), DVec3::new(1.0 + 4. * rng.f64(), 0.5 + 3. * rng.f64(), 0.3 + 5. * rng.f64()), "randbox"),
         5 => (DVec3::new(0., 0., 0.), DVec3::new(1., 0.5, 2.), "tall"),
         6 => (DVec3::new(1., 1., 1.), DVec3::new(2., 3., 0.6), "thinz"),
+        7 => (DVec3::new(0., 0., 0.), DVec3::new(1., 3., 1.), "anisocell"),
         _ => (DVec3::new(3., -7., 11.), DVec3::new(8., 1., 2.5), "flat"),
     }
 }
@@ -20,10 +21,18 @@ fn box_shape(rng: &mut Rng) -> (DVec3, DVec3, &'static str) {
 pub fn run_knn(out: &mut Out, rng: &mut Rng, thorough: bool) {
     let reps = if thorough { 1500 } else { 260 };
     for rep in 0..reps {
-        let (anchor, width, bname) = box_shape(rng);
-        let n = 2 + rng.below(if rep % 13 == 0 { 60 } else { 14 }) as usize;
+        let (mut anchor, mut width, mut bname) = box_shape(rng);
+        if rep % 4 == 1 {
+            // a grid with 4 x 6 x 4 (or permuted) non-cubic cells for the ring trap below
+            let w = [DVec3::new(1.0, 1.3, 1.0), DVec3::new(1.3, 1.0, 1.0), DVec3::new(2.0, 2.0, 2.9)][rng.below(3) as usize];
+            anchor = DVec3::new(0.25, -1.0, 3.0);
+            width = w;
+            bname = "trapbox";
+        }
+        let n = 2 + rng.below(if rep % 13 == 0 || bname == "anisocell" { 60 } else { 14 }) as usize;
         // grid cell size: from "one cell" to "many empty cells"
-        let mcw = width.max_element() * [1.5, 0.7, 0.4, 0.25, 0.13][rng.below(5) as usize];
+        // `anisocell`: cells of 0.5 x 1.5 x 0.5 (the ring bound must use the smallest width)
+        let mcw = if bname == "trapbox" { width.min_element() / 4. } else if bname == "anisocell" { 1.5 } else { width.max_element() * [1.5, 0.7, 0.4, 0.25, 0.13][rng.below(5) as usize] };
         let fam_pts = ["uniform", "cluster", "lattice", "line"][rng.below(4) as usize];
         let mut pts = vec![];
         for i in 0..n {
@@ -40,15 +49,46 @@ pub fn run_knn(out: &mut Out, rng: &mut Rng, thorough: bool) {
                 pts.push(p);
             }
         }
+        let mut fam_pts = fam_pts;
+        // adversarial "ring trap" for grids whose cells are not cubic: the true nearest neighbour sits two cells away along the
+        // axis with the smallest cell width, a decoy inside the first ring is slightly farther; only a termination bound
+        // that uses the smallest width keeps searching
+        let cdim = (width / mcw).ceil();
+        let cw = width / cdim;
+        let (wmin, wmax) = (cw.min_element(), cw.max_element());
+        if rep % 4 == 1 && wmin < 0.95 * wmax && cdim.min_element() >= 1. {
+            let thin = if cw.x == wmin { 0 } else if cw.y == wmin { 1 } else { 2 };
+            let wide = if cw.x == wmax { 0 } else if cw.y == wmax { 1 } else { 2 };
+            if cdim[thin] >= 4. && cdim[wide] >= 3. {
+                pts.clear();
+                // p: middle of a cell, 1% below its upper face along the thin axis
+                let cell = DVec3::new((cdim.x / 2.).floor(), (cdim.y / 2.).floor(), (cdim.z / 2.).floor());
+                let mut pp = anchor + (cell + DVec3::splat(0.5)) * cw;
+                pp[thin] = anchor[thin] + (cell[thin].min(cdim[thin] - 3.) + 0.99) * cw[thin];
+                let mut q = pp;
+                q[thin] += 1.02 * wmin;
+                let h = 0.5 * (1.03 * wmin + 0.01 * wmin + wmax);
+                let mut d = pp;
+                d[wide] += if pp[wide] + h < anchor[wide] + width[wide] { h } else { -h };
+                let inside = |x: DVec3| (0..3).all(|a| x[a] >= anchor[a] && x[a] < anchor[a] + width[a]);
+                if inside(pp) && inside(q) && inside(d) && h > 1.02 * wmin && h < 0.01 * wmin + wmax {
+                    pts.push(pp);
+                    pts.push(d);
+                    pts.push(q);
+                    fam_pts = "ringtrap";
+                }
+            }
+        }
         if pts.len() < 2 {
             continue;
         }
-        let k = match rng.below(4) {
+        let k = if fam_pts == "ringtrap" { 1 } else { usize::MAX };
+        let k = if k == 1 { 1 } else { match rng.below(4) {
             0 => 1,
             1 => pts.len() - 1,
             _ => 1 + rng.below((pts.len() - 1) as u64) as usize,
         }
-        .min(pts.len() - 1);
+        .min(pts.len() - 1) };
         let mut input = format!("{} {} {} {} {}", v3(anchor), v3(width), fx(mcw), k, pts.len());
         for p in &pts {
             input.push_str(&format!(" {}", v3(*p)));
